@@ -170,8 +170,23 @@ def xz_layer(res, binary, hooked, tier, seed, prop, extra_args, limit):
     rep = run_harness(binary, ["xz", "--property", prop, "--seed", seed, "--export", mc["out"], "--limit", limit] + extra_args, "%s_xz" % prop)
     res.add_harness(rep, "every exported abstract file selected for %s serialised with harness CRCs -> xz_decompress; verdict = model verdict, output = concatenation of block contents" % prop)
 
+def xz_traces(res, binary, hooked, tier, seed, prop):
+    if not hooked:
+        res.notes["container_trace_validation"] = "skipped (hooks not available in this build)"
+        return
+    trace = os.path.join(WORK, "trace_xz_%s.ndjson" % prop)
+    rep = run_harness(binary, ["xztrace", "--property", prop, "--seed", seed, "--files", os.path.join(REPO, "tests", "files"), "--trace", trace], "%s_xzt" % prop)
+    res.add_harness(rep, "container events recorded by the hooks while decoding tests/files/*.xz and harness-serialised files (0..40 blocks, all check types, header sizes up to 1024)", counts_as_traces=False)
+    ok, info = validate_trace("Trace_Xz", "Trace_Xz.cfg", trace, "%s_xztrace" % prop, timeout=600)
+    res.add_tlc(info, "trace validation: per-block header size / byte count / padding / declared sizes and the index size measured by the code equal the declarative formulas of Xz.tla")
+    if ok:
+        res.traces += rep["evaluations"]
+    else:
+        res.drift.append({"desc": "Trace_Xz rejected the recorded container events: %s" % (info.get("reject") or info.get("error") or "")[:500]})
+
 def plan_C03(res, binary, hooked, tier, seed):
     xz_layer(res, binary, hooked, tier, seed, "C03", ["--big-valid"], tq(tier, 20000, 2000000))
+    xz_traces(res, binary, hooked, tier, seed, "C03")
     return ("all well-formed supported files of the bounded model (block count 0..2, check None/CRC32/CRC64, size fields on/off, two header sizes, payload lengths mod 4 = 0..3, 1- and 2-byte varints); distinct = distinct file bytes"), TRUSTED_XZ
 
 def plan_C06(res, binary, hooked, tier, seed):
